@@ -324,6 +324,17 @@ impl<M: Manager, W: From<Object<M>>> Pool<M, W> {
     ///
     /// See [`PoolError`] for details.
     pub async fn timeout_get(&self, timeouts: &Timeouts) -> Result<W, PoolError<M::Error>> {
+        // Timeouts can't be applied without a runtime. Report this before
+        // any slot is acquired or any idle object is touched. A zero wait
+        // timeout is fine as it only makes this call non-blocking.
+        if self.inner.runtime.is_none()
+            && (timeouts.wait.is_some_and(|t| !t.is_zero())
+                || timeouts.create.is_some()
+                || timeouts.recycle.is_some())
+        {
+            return Err(PoolError::NoRuntimeSpecified);
+        }
+
         let _ = self.inner.users.fetch_add(1, Ordering::Relaxed);
         let users_guard = DropGuard(|| {
             let _ = self.inner.users.fetch_sub(1, Ordering::Relaxed);
